@@ -63,6 +63,8 @@ def run(chk, tier, seed):
         if o is None:
             continue
         n += 1
+        if " uctx=changed" in o:
+            chk.violation("caller-context-modified:%s" % line.split()[1].split("@")[-1], "%s wrote into the caller's verification context (signature / document hash / level differ from what the caller put there): %s" % (line.split()[1], o[:200]), dict(line=line))
         v = c01.verdict_of(o)
         v = v[0] if isinstance(v, tuple) else v
         allowed = d["allowed"]
